@@ -53,3 +53,121 @@ Print Assumptions expression_parser_total.
 Example unguarded_body_would_panic :
   apply_func prim_fops "upper" [] [] = Panic.
 Proof. reflexivity. Qed.
+
+(* ================================================================== beyond the row evaluator *)
+From KV Require Proofs.NoPanicVecProofs Model.Storage Model.ScanIO Proofs.NoPanicPlanProofs
+  Model.Order Proofs.OrderProofs Proofs.NoPanicOrderProofs Spec.Group Model.Aggregate Proofs.NoPanicAggrProofs.
+
+(* the VECTOR evaluator twin (Model/EvalVec.v: expression_exec_vec.go, scalar_func_vec.go):
+   every expression tree, every chunk (also empty), the code before and after D29, every float
+   structure and every regexp oracle that does not itself panic.  The panic sites are the
+   `x[i]`, i < len(chunk), on result columns and `args[k]` in the vector function bodies *)
+Theorem eval_batch_never_panics_thm :
+  forall (fo : fops) (re_match : bytes -> bytes -> res bool) (fixed_between : bool),
+  (forall p t, re_match p t <> Panic) ->
+  forall (e : expr) (ch : list EvalVec.kvpair), EvalVec.eval_batch fo re_match fixed_between e ch <> Panic.
+Proof. exact NoPanicVecProofs.eval_batch_never_panics. Qed.
+Print Assumptions eval_batch_never_panics_thm.
+
+(* what discharges them: a returned column has exactly one value per pair of the chunk *)
+Theorem eval_batch_full_column_thm :
+  forall (fo : fops) (re_match : bytes -> bytes -> res bool) (fixed_between : bool),
+  (forall p t, re_match p t <> Panic) ->
+  forall (e : expr) (ch : list EvalVec.kvpair) vs,
+  EvalVec.eval_batch fo re_match fixed_between e ch = Ok vs -> List.length vs = List.length ch.
+Proof. exact NoPanicVecProofs.eval_batch_full_column. Qed.
+Print Assumptions eval_batch_full_column_thm.
+
+(* FilterBatch: never panics, one verdict per pair (`filterBatch[i]` in the scan nodes) *)
+Theorem filter_batch_never_panics_thm :
+  forall (fo : fops) (re_match : bytes -> bytes -> res bool) (fixed_between : bool),
+  (forall p t, re_match p t <> Panic) ->
+  forall (e : expr) (ch : list EvalVec.kvpair), EvalVec.filter_batch fo re_match fixed_between e ch <> Panic.
+Proof. exact NoPanicVecProofs.filter_batch_never_panics. Qed.
+Print Assumptions filter_batch_never_panics_thm.
+
+Theorem filter_batch_full_column_thm :
+  forall (fo : fops) (re_match : bytes -> bytes -> res bool) (fixed_between : bool),
+  (forall p t, re_match p t <> Panic) ->
+  forall (e : expr) (ch : list EvalVec.kvpair) bs,
+  EvalVec.filter_batch fo re_match fixed_between e ch = Ok bs -> List.length bs = List.length ch.
+Proof. exact NoPanicVecProofs.filter_batch_full_column. Qed.
+Print Assumptions filter_batch_full_column_thm.
+
+(* the PLAN layer twin (Model/ScanIO.v: scan / limit / projection / aggregate / order / delete
+   nodes as programs over storage instructions): no statement run ends in EPanic (nil iterator,
+   wrong state shape) -- every statement, mode, store, fault index, filter, group key, batch
+   size (also 0) and fuel *)
+Theorem run_stmt_never_panics_thm :
+  forall (remember_end : bool) (flt : Storage.kvp -> bool) (gkey : Storage.kvp -> bytes) (B fuel : nat)
+         (m : ScanIO.mode) (s : ScanIO.stmt) (d : Storage.store) (fault : option nat),
+  fst (ScanIO.run_stmt remember_end flt gkey B fuel m s (Storage.sinit d fault)) <> Storage.Err Storage.EPanic.
+Proof. exact NoPanicPlanProofs.run_stmt_never_panics. Qed.
+Print Assumptions run_stmt_never_panics_thm.
+
+(* with the correspondence's fuel and PlanBatchSize >= 1 the outcomes are exactly: rows, the
+   injected storage error, the rejection of the statement *)
+Theorem run_stmt_outcomes_thm :
+  forall (remember_end : bool) (flt : Storage.kvp -> bool) (gkey : Storage.kvp -> bytes) (B : nat)
+         (m : ScanIO.mode) (s : ScanIO.stmt) (d : Storage.store) (fault : option nat),
+  1 <= B ->
+  match fst (ScanIO.run_stmt remember_end flt gkey B (ScanIO.stmt_fuel s d) m s (Storage.sinit d fault)) with
+  | Storage.Ok _ => True
+  | Storage.Err e => e = Storage.EStorage \/ e = Storage.ESyntax
+  end.
+Proof. exact NoPanicPlanProofs.run_stmt_outcomes. Qed.
+Print Assumptions run_stmt_outcomes_thm.
+
+(* FinalOrderPlan (Model/Order.v): heap.Pop is never called on an empty heap -- every state
+   reachable from Init by Next / Batch calls, every child, ORDER BY list and batch size *)
+Theorem order_plan_never_panics_thm :
+  forall (parse_int parse_float : bytes -> option Z) (ords : list Order.ofield) (st : Order.ostate),
+  NoPanicOrderProofs.reachable parse_int parse_float ords st ->
+  (forall child, fst (fst (Order.next parse_int parse_float ords st child)) <> Order.NPanic) /\
+  (forall B child, Order.batch parse_int parse_float ords B st child <> None).
+Proof. exact NoPanicOrderProofs.order_plan_never_panics. Qed.
+Print Assumptions order_plan_never_panics_thm.
+
+(* orderPos[i] is a valid index into the field names: p.FieldTypes[idx] / l.cols[oidx] in range *)
+Theorem order_positions_in_range :
+  forall orders names types ofs,
+  Order.init_orders orders names types = Some ofs ->
+  Forall (fun o => Order.opos o < List.length names) ofs.
+Proof. exact NoPanicOrderProofs.init_orders_in_range. Qed.
+Print Assumptions order_positions_in_range.
+
+(* AggregatePlan (Model/Aggregate.v) has no panic outcome by construction; its parallel slices
+   Funcs / FuncExprs stay aligned in every group row (col.Funcs[i], col.FuncExprs[i] in range) *)
+Theorem aggregate_rows_aligned :
+  forall (F : Type) fadd fltb of_Z to_Z fmt_f bits_f parse_f (fix_key fix_minmax : bool)
+         (p : Group.plan F) (pairs : list (Group.pobs F)),
+  NoPanicAggrProofs.rows_aligned F
+    (Aggregate.prepare fadd fltb of_Z to_Z fmt_f bits_f parse_f fix_key fix_minmax p pairs).
+Proof. exact NoPanicAggrProofs.prepare_aligned. Qed.
+Print Assumptions aggregate_rows_aligned.
+
+Theorem aggregate_rows_aligned_batch :
+  forall (F : Type) fadd fltb of_Z to_Z fmt_f bits_f parse_f (fix_key fix_minmax : bool)
+         (p : Group.plan F) (chunks : list (list (Group.pobs F))),
+  NoPanicAggrProofs.rows_aligned F
+    (Aggregate.prepareBatch fadd fltb of_Z to_Z fmt_f bits_f parse_f fix_key fix_minmax p chunks).
+Proof. exact NoPanicAggrProofs.prepareBatch_aligned. Qed.
+Print Assumptions aggregate_rows_aligned_batch.
+
+(* non-vacuity: the guards are what protects these sites -- without them the twins do panic *)
+Example unguarded_vec_body_would_panic :
+  forall fo re ch, EvalVec.apply_func_vec fo re "upper" [] ch [] = Panic.
+Proof. reflexivity. Qed.
+Example short_column_would_panic :
+  forall fo (f : value fo -> value fo -> res (value fo)) x, EvalVec.vmap2 fo f [x] [] = Panic.
+Proof. reflexivity. Qed.
+Example uninitialised_scan_would_panic :
+  forall remember_end flt fuel d fault,
+  fst (ScanIO.run ScanIO.exec_req
+         (ScanIO.rd (ScanIO.plan_next remember_end flt fuel (ScanIO.PScan ScanIO.SFull)
+                       (ScanIO.pstate0 (ScanIO.PScan ScanIO.SFull))))
+         (Storage.sinit d fault)) = Storage.Err Storage.EPanic.
+Proof. exact NoPanicPlanProofs.uninitialised_scan_panics. Qed.
+Example pop_on_empty_heap_would_panic :
+  forall pi pf ords, fst (fst (Order.next pi pf ords (Order.OState 0 1 []) [])) = Order.NPanic.
+Proof. reflexivity. Qed.
